@@ -8,6 +8,8 @@
 -/
 import Driver.Util
 import JanetModel.Peg.Entry
+import JanetModel.Peg.Validate
+import JanetModel.Peg.Compile
 open Driver JanetModel.Peg JanetModel.Peg.Spec
 
 def hexOrEmpty (h : String) : Option (List Nat) := if h == "-" then some [] else bytesOfHex h
@@ -211,6 +213,29 @@ def step (_ : Unit) (toks : List String) : Unit × String :=
         pure (runEntry entry m tx st sb)
       ((), r.getD "bad-op")
     else ((), "bad-op")
+  | ["compile", g] =>
+    -- the compile model's words for a source form, and whether they validate against that form
+    let r : Option String := do
+      let (p, _) ← pPatt (g.splitOn ",")
+      match Compile.compile p with
+      | none => pure "-"
+      | some ws =>
+        let P : Program := { bytecode := ws.toArray, constants := #[] }
+        let v := validate (decode P) (Spec.fetch []) 48 0 ⟨[], p⟩
+        pure ("W " ++ ",".intercalate (ws.map toString) ++ (if v then " V1" else " V0"))
+    ((), r.getD "bad-op")
+  | ["validate", bc, consts, g] =>
+    -- translation validation of real peg/compile output against the source grammar
+    let r : Option String := do
+      let words ← (bc.splitOn ",").mapM String.toNat?
+      let cs ← pValList consts
+      let (p, _) ← pPatt (g.splitOn ",")
+      let (mainp, dflt) ← (match p with
+        | .grammar ((_, mp) :: dfl) => some (mp, dfl)
+        | _ => none)
+      let P : Program := { bytecode := words.toArray, constants := cs.toArray }
+      pure (if validate (decode P) (Spec.fetch dflt) 48 0 ⟨[], mainp⟩ then "V1" else "V0")
+    ((), r.getD "bad-op")
   | "spec" :: entry :: g :: text :: start :: args :: rest =>
     let r : Option String := do
       let (p, _) ← pPatt (g.splitOn ",")
